@@ -1,6 +1,6 @@
 (* C11  Circle, arc and tangent constructions satisfy their defining constraints. *)
 From Coq Require Import ZArith Reals List Lra.
-From EG Require Import Num.Num Num.RNum Lib.Vec Model.Types Model.Angles Model.Circle Proofs.Circle Proofs.ArcBox.
+From EG Require Import Num.Num Num.RNum Lib.Vec Model.Types Model.Angles Model.Circle Proofs.Circle Proofs.ArcBox Proofs.CircleInterval.
 Import ListNotations.
 Local Open Scope R_scope.
 
@@ -87,3 +87,14 @@ Theorem C11_arc_aabb_contains : forall (c : @circ RNum) (a0 sweep f : R), 0 <= c
   fst (fst bb) <= fst p <= fst (snd bb) /\ snd (fst bb) <= snd p <= snd (snd bb).
 Proof. exact arc_aabb_contains. Qed.
 Print Assumptions C11_arc_aabb_contains.
+
+(* Circle2::intersection_interval picks, of the two intervals from the first crossing point (the signed angle to the second, or its
+   complement), the one containing the direction it tests - the other centre: whatever the start s and the signed angle a in
+   (-pi, pi], the picked interval contains that direction, and both candidates end at the same place up to a whole turn *)
+Theorem C11_intersection_interval_faces : forall s a theta : R, - PI < a <= PI ->
+  @AngleInterval_contains RNum (@pick_interval RNum s a theta) theta = true.
+Proof. exact pick_interval_contains. Qed.
+Print Assumptions C11_intersection_interval_faces.
+Theorem C11_intersection_interval_ends : forall a : R, exists k : Z, @signed_compliment_2pi RNum a = a + 2 * PI * IZR k.
+Proof. exact pick_interval_ends. Qed.
+Print Assumptions C11_intersection_interval_ends.
